@@ -54,13 +54,15 @@ def rule_file_naming(ctx):
             if st.created_db:
                 shapes[("connect", with_path)] = _shape(st.attach_file or [])
     # CREATE DATABASE through the pipeline with the connection's db_path
-    for with_path in (False, True):
+    db_kinds = [k for k in descriptors() if k.startswith("CREATE") and k.endswith("DATABASE") or k.startswith("CREATE DATABASE")]
+    for with_path, kind in [(w, k) for w in (False, True) for k in db_kinds]:
         sess = []
+        site_name = "create database" if kind == "CREATE DATABASE" else kind.lower()
 
-        def run(I, with_path=with_path):
+        def run(I, with_path=with_path, kind=kind):
             duck, conn, cur = make_session()
             conn.attrs["db_path"] = Sym("Path(db_path)", truthy=True, typ="path") if with_path else Const(None)
-            return I.call(I.getattr(cur, "_transform"), [descriptors()["CREATE DATABASE"]], {}, None)
+            return I.call(I.getattr(cur, "_transform"), [descriptors()[kind]], {}, None)
         for p in explore(prog, lambda: ExecHooks(None), run, max_paths=16):
             v = p.value
             if p.outcome == "return" and isinstance(v, NodeV) and v.cls == "Command":
@@ -71,7 +73,7 @@ def rule_file_naming(ctx):
                 from .. import sqlt
                 toks = sqlt.tokenize(Str(parts) if parts else Const(""))
                 f = next((t for t in toks if t.kind == "str"), None)
-                shapes[("create database", with_path)] = _shape(f.parts) if f is not None else "?"
+                shapes[(site_name, with_path)] = _shape(f.parts) if f is not None else "?"
     want = {False: ":memory:", True: "<db_path>/<NAME>.db"}
     for (site, with_path), shape in sorted(shapes.items()):
         ok = shape == want[with_path]
@@ -82,7 +84,7 @@ def rule_file_naming(ctx):
                           f"{site} attaches the database file `{shape}` {'with' if with_path else 'without'} a db_path; the other attach site and "
                           f"later sessions use `{want[with_path]}`: state committed under one name is not found under the other"
                           + ("" if with_path else " (and an in-memory instance must never touch the disk)"))
-    ctx.floor("attach sites x storage modes", len(shapes), 4)
+    ctx.floor("attach sites x storage modes", len(shapes), 8)
     # the pipeline passes the connection's own db_path
     st = [s for s in stages(prog) if s.name == "create_database"]
     ok = bool(st) and "db_path" in st[0].kwargs
